@@ -1,0 +1,18 @@
+//go:build verif
+
+package sha1
+
+import "reflect"
+
+// VerifSchemeType returns the struct type driven by the hash codec.
+func VerifSchemeType() reflect.Type { return reflect.TypeOf(scheme{}) }
+
+// VerifPermFinal returns a copy of the final permutation table.
+func VerifPermFinal() []byte { return append([]byte(nil), permFinal[:]...) }
+
+const VerifSumLength = sumLength
+
+const VerifRandomHint = randomHint
+
+// VerifRandRounds exposes randRounds.
+func VerifRandRounds() uint32 { return randRounds() }
